@@ -72,12 +72,31 @@ pub struct Resources {
     pub jobs: usize,
     pub traps_active: usize,
     pub dir_stack: usize,
+    pub out_len: usize,
+    pub err_len: usize,
+    pub functions: usize,
+    pub opens: u64,
+    pub pipe_calls: u64,
+    pub file_writes: u64,
 }
 
 pub fn sample_resources<SE: ShellExtensions>(shell: &Shell<SE>) -> Resources {
     let env = serde_json::to_value(shell.env()).unwrap_or_default();
     let scopes = env.get("scopes").and_then(|s| s.as_array()).map_or(0, |a| a.len());
-    let proc_fds = std::fs::read_dir("/proc/self/fd").map_or(0, |d| d.count());
+    // descriptors that refer to files, directories or OS pipes; the runtime's own epoll /
+    // eventfd / socket descriptors are not the shell's
+    let proc_fds = std::fs::read_dir("/proc/self/fd").map_or(0, |d| {
+        d.filter_map(|e| e.ok())
+            .filter_map(|e| std::fs::read_link(e.path()).ok())
+            .filter(|t| {
+                let t = t.to_string_lossy();
+                t.starts_with('/') || t.starts_with("pipe:")
+            })
+            .count()
+    });
+    let cs = serde_json::to_value(shell.call_stack()).unwrap_or_default();
+    let traps_active = cs.get("active_trap_signals").and_then(|s| s.as_array()).map_or(0, |a| a.len());
+    let (out_len, err_len, opens, pipe_calls, file_writes) = world::with(|w| (w.sinks[1].len(), w.sinks[2].len(), w.opens, w.pipe_calls, w.file_writes));
     Resources {
         scopes,
         frames: shell.call_stack().depth(),
@@ -86,8 +105,14 @@ pub fn sample_resources<SE: ShellExtensions>(shell: &Shell<SE>) -> Resources {
         live_participants: world::live_participants(),
         proc_fds,
         jobs: shell.jobs().jobs.len(),
-        traps_active: 0,
+        traps_active,
         dir_stack: shell.directory_stack().len(),
+        out_len,
+        err_len,
+        functions: shell.funcs().iter().count(),
+        opens,
+        pipe_calls,
+        file_writes,
     }
 }
 
@@ -252,6 +277,9 @@ pub fn run_with(spec: &RunSpec, inspect: Option<Inspect>) -> RunResult {
     let dir = if spec.needs_dir || !spec.files.is_empty() || matches!(spec.front_end, FrontEnd::ScriptFile | FrontEnd::Source) {
         let d = fresh_dir();
         for (name, content) in &spec.files {
+            if let Some(parent) = d.join(name).parent() {
+                let _ = std::fs::create_dir_all(parent);
+            }
             let _ = std::fs::write(d.join(name), content);
         }
         if matches!(spec.front_end, FrontEnd::ScriptFile | FrontEnd::Source) {
